@@ -166,6 +166,9 @@ class TreeDef:
             return rebuild(s, [rec(c) for _, c in children(s)])
         return rec(self.skeleton)
 
+    def flatten_up_to(self, tree):
+        return tree_flatten_upto(self, tree)
+
     def __eq__(self, o):
         return isinstance(o, TreeDef) and _describe_deep(self.skeleton) == _describe_deep(o.skeleton)
 
@@ -188,6 +191,14 @@ def tree_structure(tree, is_leaf=None):
         return rebuild(x, [rec(c) for _, c in children(x)])
     sk = rec(tree)
     return TreeDef(sk, n[0])
+
+
+def tree_flatten(tree, is_leaf=None):
+    return tree_leaves(tree, is_leaf=is_leaf), tree_structure(tree, is_leaf=is_leaf)
+
+
+def tree_unflatten(treedef, leaves):
+    return treedef.unflatten(leaves)
 
 
 def tree_flatten_upto(treedef, tree):
